@@ -201,6 +201,27 @@ func provablyNonNil(v ssa.Value, at ssa.Instruction, depth int) bool {
 			"internal/transport.connectionErrorf", "internal/transport.ContextErr", "grpc.toRPCErr", "errors.Join":
 			return true
 		}
+		// a call of a local closure (or a static function of the analysed program) all of whose returns are provably non-nil
+		var callee *ssa.Function
+		if mc, ok := x.Call.Value.(*ssa.MakeClosure); ok {
+			callee, _ = mc.Fn.(*ssa.Function)
+		} else if sc := x.Call.StaticCallee(); sc != nil && sc.Parent() != nil {
+			callee = sc
+		}
+		if callee != nil && callee.Blocks != nil && callee.Signature.Results().Len() == 1 {
+			all := true
+			for _, r := range returnsOf(callee) {
+				if callee.Recover != nil && r.Block() == callee.Recover {
+					continue
+				}
+				if !provablyNonNil(r.Results[0], r, depth+1) {
+					all = false
+				}
+			}
+			if all {
+				return true
+			}
+		}
 	case *ssa.UnOp:
 		if x.Op == token.MUL {
 			if g, ok := x.X.(*ssa.Global); ok {
